@@ -155,6 +155,16 @@ fn insert_op<T: Tokish>(world: &mut World, e: Entity, u: u64, v: i64, out: &mut 
     }
 }
 
+/// deferred removal / insertion (performed by the next maintain); used only by the implementation-only scenarios
+/// "deferred work queued after a caught destructor panic is still performed"
+fn lazy_remove_op<T: Tokish>(world: &mut World, e: Entity) {
+    world.read_resource::<LazyUpdate>().remove::<T>(e);
+}
+
+fn lazy_insert_op<T: Tokish>(world: &mut World, e: Entity, u: u64, v: i64) {
+    world.read_resource::<LazyUpdate>().insert(e, T::mk(u, v));
+}
+
 fn drop_storage_op<T: Tokish>(world: &mut World, out: &mut Out) {
     let st = world.remove::<MaskedStorage<T>>();
     *out = vec![7];
@@ -327,6 +337,22 @@ fn exec(x: &mut Ux, code: i64, p: &[i64], out: &mut Out) {
                 31 => *out = by_sid!(sid, get_op, &x.world, e),
                 _ => by_sid!(sid, insert_op, &mut x.world, e, p[2] as u64, p[3], out),
             }
+        }
+        (92, 2) | (93, 4) => {
+            let sid = p[0];
+            let e = match hget(x, p[1]) {
+                Some(e) if is_reg(&x.world, sid) => e,
+                _ => {
+                    *out = skip;
+                    return;
+                }
+            };
+            if code == 92 {
+                by_sid!(sid, lazy_remove_op, &mut x.world, e);
+            } else {
+                by_sid!(sid, lazy_insert_op, &mut x.world, e, p[2] as u64, p[3]);
+            }
+            *out = vec![7];
         }
         (10, 1) => match hget(x, p[0]) {
             Some(e) => {
